@@ -118,7 +118,9 @@ class Seg11Harness:
 
     horizon = 5000
 
-    def __init__(self, framing, hs, sl, interim, variant, consume, truncate=True, seg_cost=0):
+    def __init__(self, framing, hs, sl, interim, variant, consume, truncate=True, seg_cost=0, trace=None):
+        self.trace = trace      # "truthy": the request carries a trace callback that returns a value (a logger's write() returns an int): whatever a
+                                # callback returns, a truncated body is an error
         self.seg_cost = seg_cost
         self.data, self.truth = build_response(framing, hs, STATUS_LINES[sl], INTERIMS[interim])
         self.variant = variant
@@ -136,6 +138,15 @@ class Seg11Harness:
         method = truth["method"]
         url = "http://example.com/x"
         got = {}
+        ext = {}
+        if self.trace == "truthy":
+            if self.variant == "sync":
+                def _tr(name, info):
+                    return len(name)
+            else:
+                async def _tr(name, info):
+                    return len(name)
+            ext = {"trace": _tr}
 
         if self.variant == "sync":
             pool = httpcore.ConnectionPool(network_backend=w.backend)
@@ -156,11 +167,11 @@ class Seg11Harness:
 
             def prog():
                 if self.consume == "request":
-                    r = pool.request(method, url)
+                    r = pool.request(method, url, extensions=dict(ext))
                     got.update(status=r.status, headers=r.headers, ext=r.extensions, body=r.content)
                     probe(r)
                 elif self.consume == "read":
-                    with pool.stream(method, url) as r:
+                    with pool.stream(method, url, extensions=dict(ext)) as r:
                         got.update(status=r.status, headers=r.headers, ext=r.extensions)
                         try:
                             got["body"] = r.read()
@@ -173,7 +184,7 @@ class Seg11Harness:
                                 got["after_error"] = ("raised", exc_class(e2))
                             raise
                 else:
-                    with pool.stream(method, url) as r:
+                    with pool.stream(method, url, extensions=dict(ext)) as r:
                         got.update(status=r.status, headers=r.headers, ext=r.extensions)
                         for chunk in r.iter_stream():
                             collected.append(chunk)
@@ -198,11 +209,11 @@ class Seg11Harness:
 
             async def aprog():
                 if self.consume == "request":
-                    r = await pool.request(method, url)
+                    r = await pool.request(method, url, extensions=dict(ext))
                     got.update(status=r.status, headers=r.headers, ext=r.extensions, body=r.content)
                     await aprobe(r)
                 elif self.consume == "read":
-                    async with pool.stream(method, url) as r:
+                    async with pool.stream(method, url, extensions=dict(ext)) as r:
                         got.update(status=r.status, headers=r.headers, ext=r.extensions)
                         try:
                             got["body"] = await r.aread()
@@ -214,7 +225,7 @@ class Seg11Harness:
                                 got["after_error"] = ("raised", exc_class(e2))
                             raise
                 else:
-                    async with pool.stream(method, url) as r:
+                    async with pool.stream(method, url, extensions=dict(ext)) as r:
                         got.update(status=r.status, headers=r.headers, ext=r.extensions)
                         async for chunk in r.aiter_stream():
                             collected.append(chunk)
@@ -299,6 +310,15 @@ def specs(tier):
                 if tier == "quick" and it == 2 and (variant, consume) != (("sync", "request") if (len(out) % 2) else ("async", "stream")):
                     continue
                 out.append(make_spec(MOD, "Seg11Harness", framing=fr, hs=hs, sl=sl, interim=it, variant=variant, consume=consume))
+    # the same with a trace callback that returns a value
+    seen_fr = []
+    for (fr, hs, sl, it) in corpus(tier):
+        if fr in seen_fr or (tier == "quick" and len(seen_fr) >= 4):
+            continue
+        seen_fr.append(fr)
+        for variant in ("sync", "async"):
+            for consume in (("request", "stream") if tier != "quick" else (("stream",) if variant == "sync" else ("request",))):
+                out.append(make_spec(MOD, "Seg11Harness", framing=fr, hs=hs, sl=sl, interim=it, variant=variant, consume=consume, trace="truthy"))
     return out
 
 
